@@ -73,6 +73,7 @@ Conforms(e) ==
   CASE e.op = "vrf.Prove" -> ProveEvent(e)
     [] e.op = "vrf.Verify" -> VerifyEvent(e)
     [] e.op = "vrf.Decode" -> DecodeEvent(e)
+    [] e.op = "vrf.par" -> e.out.panic = ""          \* concurrent calls answer as they do alone (compared in the driver)
     [] OTHER -> FALSE
 
 Init == l = 1 /\ bad = <<>>
